@@ -34,6 +34,8 @@ inductive V
   | str (s : String)
   | list (n : Nat)
   | obj (id : Nat) (t : Bool)
+  /-- `float("nan")`: truthy, unequal to everything (itself included), every ordering comparison false -/
+  | nan
 deriving DecidableEq, Repr, Inhabited
 
 /-- `bool(x)` -/
@@ -45,6 +47,7 @@ def truthy : V → Bool
   | .str s => s != ""
   | .list n => n != 0
   | .obj _ t => t
+  | .nan => true
 
 inductive Cmp | eq | ne | lt | le | gt | ge
 deriving DecidableEq, Repr, Inhabited
@@ -386,7 +389,15 @@ def isOrder : Cmp → Bool
   | _ => true
 
 /-- `==`/`!=` never raise (identity fallback); ordering raises `TypeError` across kinds -/
+def isNan : V → Bool
+  | .nan => true
+  | _ => false
+
 def pyCmp (op : Cmp) (a b : V) : Option Bool :=
+  if (isNan a && (isNan b || (num b).isSome)) || (isNan b && (num a).isSome) then
+    -- a comparison of numbers one of which is NaN: `!=` holds, nothing else does (never raises)
+    some (op == .ne)
+  else
   match num a, num b with
   | some x, some y => some (ordOf op (x < y) (x == y))
   | _, _ =>
